@@ -1,3 +1,63 @@
-From SA Require Import Model.Eer.
-Example C06_placeholder : isclose 1 1 = true.
-Proof. reflexivity. Qed.
+(* Props/C06.v — property C06: EER is a crossing point. Statements only.
+   Model of the repaired tree (fix 8b94371: strict comparisons in the perfect-separation shortcut).
+   succ/pred = np.nextafter; fuel = bound on bisection iterations (64 in the executable instance). *)
+From SA Require Import Model.Eer Proofs.InvIncrFacts Proofs.RoundtripFacts Proofs.EerFacts.
+Open Scope Q_scope.
+
+(* 0 <= e <= 1 and e never exceeds the smaller of the two hard-sample fractions: all inputs with both
+   classes non-empty, ties allowed, all configurations, any easy counts. *)
+Theorem C06_range :
+  forall (succ pred : Q -> Q) (fuel : nat) (s : scores) (t e : Q),
+  proper s -> eer succ pred fuel s = Ret (t, e) ->
+  0 <= e /\ e <= Qmin2 (hard_pos_ratio s) (hard_neg_ratio s) /\ e <= 1.
+Proof. exact eer_range. Qed.
+Print Assumptions C06_range.
+
+(* for ANY input (ties included) a reported EER of 0 comes with a threshold at which there are no
+   errors.  On the original tree this failed for classes sharing their boundary score
+   (known_findings.json, fixed 8b94371). *)
+Theorem C06_zero_clause :
+  forall (succ pred : Q -> Q) (fuel : nat) (s : scores) (t e : Q),
+  proper s -> eer succ pred fuel s = Ret (t, e) -> e == 0 ->
+  cfp (cm s (Fin t)) = 0%Z /\ cfn (cm s (Fin t)) = 0%Z.
+Proof. exact eer_zero_no_errors. Qed.
+Print Assumptions C06_zero_clause.
+
+(* FPR side: whenever the returned threshold is the FPR-side threshold for e (the bisection exit
+   and the hard_pos_ratio < hard_neg_ratio edge exit return exactly that), the false-positive count
+   is within one sample of e * N_neg_all; untied negatives. *)
+Theorem C06_fpr_side :
+  forall (succ pred : Q -> Q), (forall x, x < succ x) -> (forall x, pred x < x) ->
+  forall (fuel : nat) (s : scores) (t e : Q),
+  proper s -> ssorted (neg s) -> eer succ pred fuel s = Ret (t, e) -> t = t_fpr succ pred s e ->
+  within1 (cfp (cm s (Fin t))) (e * inject_Z (len (neg s) + easy_neg s)).
+Proof. exact eer_fpr_side. Qed.
+Print Assumptions C06_fpr_side.
+
+(* FNR side, _partial: proved under the exact-root hypothesis (the returned threshold is also the
+   FNR-side threshold for e).  The full clause needs the bisection tolerance to be small against the
+   gaps of the positives (rho = N_neg * max gap(neg) * xtol / min gap(pos) < 1, DESIGN A.4); without
+   that it is FALSE on the real code: clustered positives 0.5 + i*1.25e-12, neg = [0,1] give FNR(t)=1.0
+   at e=0.25 (known_findings.json, open).  The oracle checks the clause on every run and classifies
+   failures by rho. *)
+Theorem C06_fnr_side_partial :
+  forall (succ pred : Q -> Q), (forall x, x < succ x) -> (forall x, pred x < x) ->
+  forall (fuel : nat) (s : scores) (t e : Q),
+  proper s -> ssorted (pos s) -> eer succ pred fuel s = Ret (t, e) -> t = t_fnr succ pred s e ->
+  within1 (cfn (cm s (Fin t))) (e * inject_Z (len (pos s) + easy_pos s)).
+Proof. exact eer_fnr_side_exact_root. Qed.
+Print Assumptions C06_fnr_side_partial.
+
+(* the bisection never leaves its interval (any f, any fuel) *)
+Theorem C06_find_root_range :
+  forall fuel (f : Q -> Q) xa xe ff xtol r, xa <= xe -> find_root fuel f xa xe ff xtol = Ret r -> xa <= r /\ r <= xe.
+Proof. exact find_root_range. Qed.
+Print Assumptions C06_find_root_range.
+
+(* Equivariance under increasing affine maps / direction reversal: checked on the implementation (C08). *)
+
+Example C06_example :
+  match eer succ64 pred64 64 (mk_scores [1#1; 3#1; 5#1; 7#1] [0#1; 2#1; 4#1; 6#1] 0 0 Pos Pos false) with
+  | Ret (t, e) => Qeqb e (5#16) && Qeqb t (7#2)
+  | Raise => false end = true.
+Proof. vm_compute. reflexivity. Qed.
